@@ -1,17 +1,39 @@
 (* C08 — Simplified syntax means exactly its documented core translation.
-   Only statements + `exact`; proofs are in Logic/SugarFacts.v.  Model: Logic/Sugar.v (elaboration of
-   ISLaEmitter); `ev` is the abstract two-valued evaluation over arbitrary quantifier domains (possibly empty).
+   Only statements + `exact`; proofs are in Logic/SugarFacts.v, Logic/SugarMore.v (coincidence lemma, recursive
+   push-in, `..` axis), Logic/SugarXPath.v (XPath child axis at the level of `ev`), Logic/SugarTotal.v (totality of
+   the push-in), Logic/SugarClose.v (the closure loop of close_over_free_nonterminals).  Model: Logic/Sugar.v (elaboration of ISLaEmitter); `ev` is the abstract two-valued evaluation over
+   arbitrary quantifier domains (possibly empty).
 
    FULL STATEMENT (not provable for the faithful model; kept visible):
      forall g s f, elab g s = Ok f -> forall rho, ev rho f = ev rho (elab_doc s)
    where elab_doc wraps the whole formula in `forall` for every free nonterminal.  It is REFUTED
    (C08_pushin_refuted, C08_fresh_clash_refuted; three more classes are recorded from the correspondence:
    K_dotdot_polarity, K_root_also_free, K_xpath_dup, see design_notes/C08.md).  What is proved instead:
-   every building block of the elaboration preserves meaning, the push-in step exactly outside the class
-   K_pushin_empty. *)
+
+   FULL (all formulas, environments, domains): derived connectives, negation, and/or smart constructors; the
+     coincidence lemma C08_ev_coincidence (meaning depends only on `fv`, for formulas in which no quantifier ranges
+     over its own bound variable) and C08_indep_syntactic (the syntactic independence test of the push-in implies
+     the semantic premise `indep` of the one-step theorems); totality of the push-in with the model's fuel
+     (C08_pushin_total, C08_close_fnt_total: no assertion failure, no fuel exhaustion).
+   PARTIAL, now for the ACTUAL recursive function push_in (all fuels, all nesting of and/or/forall):
+     C08_close_fnt_sound_partial — the whole loop of close_over_free_nonterminals (no XPath registered) == the
+       documented closure `forall v1 in start: ... forall vk in start: f` around the WHOLE formula, outside
+       K_pushin_empty (and with pairwise distinct, not re-bound closure variables: violated only by K_fresh_clash);
+     C08_pushin_sound_partial  — push_in v inv f  ==  forall v in inv: f   outside K_pushin_empty (and outside
+       K_pushin_rebind: v / inv bound again inside f, which only name clashes K_fresh_clash produce);
+     C08_dotdot_forall_partial — `x..<T>` with x bound by a universal quantifier in positive position ==
+       `forall <T> y in x` directly inside that quantifier (other polarities: recorded class K_dotdot_polarity);
+     C08_xpath_child_forall_partial / _exists_partial — `x.<T>[pos]` on a universally / existentially quantified x,
+       as rewritten by AddMexprTransformer over the alternatives of expand_mexpr_trees, == "the pos-th <T> child of x"
+       under a concrete tree semantics of one-level match expressions (guards: no empty-string symbol in the
+       alternatives of x's type, the nodes ranged over are expanded by grammar alternatives).
+   STILL MISSING: `elab g s = Ok c` outside the K classes for the whole pipeline (proved: the push-in stage and the
+     closure loop without XPath never fail; walk, ensure_unique_bound_variables and the final free-variable check are
+     not covered); multi-segment XPaths and the push-in with the in-variable bound inside (push_in_formulas) for `..`
+     below conjunctions; the composition of all stages into the full statement. *)
 From Coq Require Import List NArith Bool.
 Import ListNotations.
-From ISLA Require Import Str Outcome Tree Grammar Formula Sugar SugarFacts.
+From ISLA Require Import Str Outcome Tree Grammar Formula Sugar SugarFacts SugarMore SugarXPath SugarTotal SugarClose.
 
 (* implies / iff / xor, as built by the parser from the smart constructors, have their truth-table meaning *)
 Theorem C08_derived_connectives :
@@ -111,3 +133,183 @@ Print Assumptions C08_xpath_expand_step.
 Theorem C08_fresh_clash_refuted : exists f, elab G3 S_clash = Ok f /\ well_scoped [] f = false.
 Proof. exact fresh_clash_refuted. Qed.
 Print Assumptions C08_fresh_clash_refuted.
+
+(* ================= proof extension (wave 2) ================= *)
+
+(* COINCIDENCE: the meaning of a formula depends only on the variables reported by the model's `fv`
+   (= Python free_variables()), provided no quantifier ranges over one of its own bound variables (inq_ok; violated
+   exactly by the K_fresh_clash witness above).  Premise about the abstract domains: an assignment binds exactly the
+   quantifier's variable and the bound variables of its match expression. *)
+Theorem C08_ev_coincidence :
+  forall (D : Type) aev pev (dom : D -> var -> option mexpr -> list (list (var * D))) idom tval,
+  (forall d v m asg, In asg (dom d v m) -> forall x, existsb (fun p => var_eqb (fst p) x) asg = vmem x (qbound v m)) ->
+  forall f, inq_ok f = true -> forall rho rho',
+    (forall x, In x (fv f) -> rho x = rho' x) ->
+    ev D aev pev dom idom tval rho f = ev D aev pev dom idom tval rho' f.
+Proof. exact ev_coincidence. Qed.
+Print Assumptions C08_ev_coincidence.
+
+(* the syntactic independence test of univ_close_over_var_push_in implies the semantic premise of
+   C08_pushin_and_partial / C08_pushin_or_partial / C08_pushin_absent_partial *)
+Theorem C08_indep_syntactic :
+  forall (D : Type) aev pev (dom : D -> var -> option mexpr -> list (list (var * D))) idom tval,
+  (forall d v m asg, In asg (dom d v m) -> forall x, existsb (fun p => var_eqb (fst p) x) asg = vmem x (qbound v m)) ->
+  forall rho v i qfd e, vmem v qfd = true -> inq_ok e = true -> isnil (vinter qfd (fv e)) = true ->
+    indep D aev pev dom idom tval rho v i None e.
+Proof. exact indep_syntactic. Qed.
+Print Assumptions C08_indep_syntactic.
+
+(* the ACTUAL recursive push_in (every fuel, arbitrary nesting of and / or / forall): whenever it returns a formula,
+   that formula means the documented closure `forall v in inv: f`.
+   PARTIAL: guards K_pushin_empty (the refuted class) and K_pushin_rebind (v or inv bound again inside f, or a
+   quantifier over its own variable: the documented closure itself would be ill-scoped); qfd must contain v (as at
+   the call sites for free nonterminals and `..`; for XPath groups qfd are the XPath variables: not covered). *)
+Theorem C08_pushin_sound_partial :
+  forall (D : Type) aev pev (dom : D -> var -> option mexpr -> list (list (var * D))) idom tval,
+  (forall d v m asg, In asg (dom d v m) -> forall x, existsb (fun p => var_eqb (fst p) x) asg = vmem x (qbound v m)) ->
+  forall n v inv qfd f f' rho,
+    push_in n v inv qfd f = Ok f' ->
+    vmem v qfd = true ->
+    K_pushin_rebind v inv f = false ->
+    K_pushin_empty D dom tval rho v (InVar inv) None = false ->
+    ev D aev pev dom idom tval rho f' = ev D aev pev dom idom tval rho (FForall v (InVar inv) None f).
+Proof. exact pushin_sound_rec. Qed.
+Print Assumptions C08_pushin_sound_partial.
+
+(* non-vacuity: `<a> = "x" and <b> = "y"`, closing over b — push_in really pushes, all guards hold, and the domain
+   function dom_k satisfies the premise about assignments *)
+Theorem C08_pushin_sound_nonvacuous :
+  push_in 4 vb start_c [vb] (FAnd [at_a; at_b]) = Ok (FAnd [at_a; FForall vb (InVar start_c) None at_b]) /\
+  vmem vb [vb] = true /\ K_pushin_rebind vb start_c (FAnd [at_a; at_b]) = false /\
+  K_pushin_empty str (dom_k (fun _ => [121]%N)) (fun _ => []) rho0 vb (InVar start_c) None = false.
+Proof. exact pushin_rec_nonvacuous. Qed.
+Print Assumptions C08_pushin_sound_nonvacuous.
+
+Theorem C08_dom_k_keys : forall val d v m asg, In asg (dom_k val d v m) ->
+  forall x, existsb (fun p => var_eqb (fst p) x) asg = vmem x (qbound v m).
+Proof. exact dom_k_keys. Qed.
+Print Assumptions C08_dom_k_keys.
+
+(* `..` axis, the supported case: x bound by a universal quantifier (w binds x, possibly through a match expression)
+   in positive position; close_over_xpath_expressions calls push_in with in-variable x.  The result means: the
+   documented `forall <T> y in x` directly inside the quantifier of x.  PARTIAL: K_pushin_empty excluded for every
+   x; other polarities / an existential binder are the recorded class K_dotdot_polarity. *)
+Theorem C08_dotdot_forall_partial :
+  forall (D : Type) aev pev (dom : D -> var -> option mexpr -> list (list (var * D))) idom tval,
+  (forall d v m asg, In asg (dom d v m) -> forall x, existsb (fun p => var_eqb (fst p) x) asg = vmem x (qbound v m)) ->
+  forall n y x qfd w i m body f' rho,
+    push_in n y x qfd (FForall w i m body) = Ok f' ->
+    vmem y qfd = true ->
+    isnil (vinter qfd (fv (FForall w i m body))) = false ->
+    invar_eqb (InVar y) i = false ->
+    K_pushin_rebind y x body = false ->
+    (forall aw, In aw (dom (ival D tval rho i) w m) ->
+                K_pushin_empty D dom tval (upds D rho aw) y (InVar x) None = false) ->
+    ev D aev pev dom idom tval rho f' =
+    ev D aev pev dom idom tval rho (FForall w i m (FForall y (InVar x) None body)).
+Proof. exact dotdot_forall_sound_rec. Qed.
+Print Assumptions C08_dotdot_forall_partial.
+
+Theorem C08_dotdot_nonvacuous :
+  push_in 4 vb vs_ [vb] (FForall vs_ (InVar start_c) None at_b) =
+    Ok (FForall vs_ (InVar start_c) None (FForall vb (InVar vs_) None at_b)) /\
+  vmem vb [vb] = true /\ isnil (vinter [vb] (fv (FForall vs_ (InVar start_c) None at_b))) = false /\
+  invar_eqb (InVar vb) (InVar start_c) = false /\ K_pushin_rebind vb vs_ at_b = false /\
+  (forall aw, In aw (dom_k (fun _ => [121]%N) (rho0 start_c) vs_ None) ->
+     K_pushin_empty str (dom_k (fun _ => [121]%N)) (fun _ => []) (upds str rho0 aw) vb (InVar vs_) None = false).
+Proof. exact dotdot_nonvacuous. Qed.
+Print Assumptions C08_dotdot_nonvacuous.
+
+(* XPath child axis at the level of `ev`: `x.<T>[pos]` on `forall <X> x in c: b` is rewritten by
+   AddMexprTransformer into a conjunction over the match expressions of expand_mexpr_trees (model: addm over
+   mexprs = map mk_mexpr (expand g X [(T,pos)])).  Under the tree semantics dom_t of one-level match expressions
+   (children labels must equal the element types; cands = the nodes a quantifier ranges over, arbitrary) this is the
+   documented reading doc_child_forall: for every <X> node s, if s has a pos-th child ch of type T (nth_child:
+   filter + nth_error), b holds with x := s, y := ch.
+   PARTIAL: one segment; guards: y bound variable of type T, no empty-string symbol in the alternatives of X, the
+   nodes ranged over are expanded by alternatives of g, x not bound again inside b. *)
+Theorem C08_xpath_child_forall_partial :
+  forall aev pev idom (cands : tree -> str -> list tree) g x y T pos,
+    vk y = VBound -> vtype y = T ->
+    (forall a, In a (alts g (vtype x)) -> eps_free a) ->
+    forall rho c b f',
+      addm x (mexprs g x y T pos) (FForall x c None b) = Ok f' ->
+      binds x b = false ->
+      (forall s, In s (cands (ival tree tid_ rho c) (vtype x)) -> In (map lbl (kids s)) (alts g (vtype x))) ->
+      ev tree aev pev (dom_t cands) idom tid_ rho f' = doc_child_forall aev pev idom cands x y T pos rho c b.
+Proof. exact xpath_child_addm_forall. Qed.
+Print Assumptions C08_xpath_child_forall_partial.
+
+(* existential quantifier: disjunction over the alternatives; additionally at least one alternative has a pos-th T
+   (otherwise close_over_xpath_expressions raises SyntaxError before) *)
+Theorem C08_xpath_child_exists_partial :
+  forall aev pev idom (cands : tree -> str -> list tree) g x y T pos,
+    vk y = VBound -> vtype y = T ->
+    (forall a, In a (alts g (vtype x)) -> eps_free a) ->
+    forall rho c b f',
+      addm x (mexprs g x y T pos) (FExists x c None b) = Ok f' ->
+      binds x b = false ->
+      mexprs g x y T pos <> [] ->
+      (forall s, In s (cands (ival tree tid_ rho c) (vtype x)) -> In (map lbl (kids s)) (alts g (vtype x))) ->
+      ev tree aev pev (dom_t cands) idom tid_ rho f' = doc_child_exists aev pev idom cands x y T pos rho c b.
+Proof. exact xpath_child_addm_exists. Qed.
+Print Assumptions C08_xpath_child_exists_partial.
+
+(* non-vacuity: grammar <s> ::= <a> | <a><b>, `s.<b>` on the derivation tree of "xy" *)
+Theorem C08_xpath_child_nonvacuous :
+  (forall a, In a (alts G0 (vtype xs_)) -> eps_free a) /\
+  (forall s, In s (cands0 t_xy (vtype xs_)) -> In (map lbl (kids s)) (alts G0 (vtype xs_))) /\
+  vk yb_ = VBound /\ vtype yb_ = nt 98 /\
+  mexprs G0 xs_ yb_ (nt 98) 0 = [MkMexpr [dummy (nt 97); yb_] []] /\
+  nth_child t_xy (nt 98) 0 = Some (Node (nt 98) 3 false [leaf [121]%N]).
+Proof. exact xpath_child_nonvacuous. Qed.
+Print Assumptions C08_xpath_child_nonvacuous.
+
+(* TOTALITY of the push-in stage: on formulas whose and/or nodes have >= 2 operands (arity_ok; the only ones the
+   Formula constructors build) and with more fuel than the formula size (the model passes S (fsize f)), push_in
+   returns a formula — neither the out-of-fuel outcome nor `assert len(result_elements) > 1` can happen — and the
+   result is again arity_ok. *)
+Theorem C08_pushin_total : forall v inv qfd n f, fsize f < n -> arity_ok f = true ->
+  exists f', push_in n v inv qfd f = Ok f' /\ arity_ok f' = true.
+Proof. exact push_in_total. Qed.
+Print Assumptions C08_pushin_total.
+
+(* ... hence close_over_free_nonterminals never fails when no XPath expression is registered.
+   PARTIAL w.r.t. `elab g s = Ok c unless a K class holds`: only this stage; see header. *)
+Theorem C08_close_fnt_total : forall used st f, w_xp st = [] -> arity_ok f = true ->
+  exists f', close_fnt used st f = Ok (f', used, []) /\ arity_ok f' = true.
+Proof. exact close_fnt_total. Qed.
+Print Assumptions C08_close_fnt_total.
+
+(* the WHOLE closure loop of close_over_free_nonterminals, when no XPath expression is registered: the elaborated
+   formula means the documented closure — one `forall v in start` per free nonterminal around the whole formula
+   (nest; first registered nonterminal outermost).
+   PARTIAL: K_pushin_empty excluded for every closure variable; the closure variables are pairwise distinct, differ
+   from `start` and are not bound inside f (true for the names invented by register_var_for_free_nonterminal unless
+   they clash: K_fresh_clash); XPath groups (close_groups) not covered. *)
+Theorem C08_close_fnt_sound_partial :
+  forall (D : Type) aev pev (dom : D -> var -> option mexpr -> list (list (var * D))) idom tval,
+  (forall d v m asg, In asg (dom d v m) -> forall x, existsb (fun p => var_eqb (fst p) x) asg = vmem x (qbound v m)) ->
+  forall used st f f' u xp rho,
+    w_xp st = [] ->
+    close_fnt used st f = Ok (f', u, xp) ->
+    let vs := map snd (rev (w_fnt st)) in
+    NoDup vs -> ~ In start_c vs ->
+    (forall v, In v vs -> ~ In v (bvars f)) -> ~ In start_c (bvars f) -> inq_ok f = true ->
+    (forall v, In v vs -> K_pushin_empty D dom tval rho v (InVar start_c) None = false) ->
+    ev D aev pev dom idom tval rho f' = ev D aev pev dom idom tval rho (nest vs f).
+Proof. exact close_fnt_sound. Qed.
+Print Assumptions C08_close_fnt_sound_partial.
+
+(* non-vacuity: the listener state after `<a> = "x" and <b> = "y"`: the loop produces exactly sugar_wit (the AST of
+   C08_pushin_refuted), the documented nest is doc_wit, and on a domain with a <b> node every guard holds *)
+Theorem C08_close_fnt_sound_nonvacuous :
+  close_fnt [] st_wit (FAnd [at_a; at_b]) = Ok (sugar_wit, [], []) /\
+  nest (map snd (rev (w_fnt st_wit))) (FAnd [at_a; at_b]) = doc_wit /\
+  NoDup (map snd (rev (w_fnt st_wit))) /\ ~ In start_c (map snd (rev (w_fnt st_wit))) /\
+  (forall v, In v (map snd (rev (w_fnt st_wit))) -> ~ In v (bvars (FAnd [at_a; at_b]))) /\
+  ~ In start_c (bvars (FAnd [at_a; at_b])) /\ inq_ok (FAnd [at_a; at_b]) = true /\
+  (forall v, In v (map snd (rev (w_fnt st_wit))) ->
+     K_pushin_empty str (dom_k (fun _ => [121]%N)) (fun _ => []) rho0 v (InVar start_c) None = false).
+Proof. exact close_fnt_nonvacuous. Qed.
+Print Assumptions C08_close_fnt_sound_nonvacuous.
